@@ -388,6 +388,23 @@ let pool_mode path =
    with End_of_file -> ());
   close_in ic
 
+(* -exit FILE: lines of 12 bits (flags_ok help one_arg input_ok parse_ok entry_ok nobuild output_ok build_ok
+   format_ok write_ok close_ok); prints the exit status the model of main.go assigns *)
+let exit_mode path =
+  let ic = open_in path in
+  (try
+     while true do
+       let l = input_line ic in
+       if String.length l >= 12 then begin
+         let b i = l.[i] = '1' in
+         let s = { s_flags_ok = b 0; s_help = b 1; s_one_arg = b 2; s_input_ok = b 3; s_parse_ok = b 4; s_entry_ok = b 5;
+                   s_nobuild = b 6; s_output_ok = b 7; s_build_ok = b 8; s_format_ok = b 9; s_write_ok = b 10; s_close_ok = b 11 } in
+         Printf.printf "%s %d\n" l (int_of_n (exit_code s))
+       end
+     done
+   with End_of_file -> ());
+  close_in ic
+
 (* ---------- front-end AST (Gen model) ---------- *)
 let rec aexpr_of = function
   | L [A "lit"; v; ic] -> ALit (hexb v, bool_a ic)
@@ -480,12 +497,13 @@ let bl_mode path =
   close_in ic
 
 let () =
-  let tables = ref "" and cases = ref "" and fuel = ref 4000 and dec = ref "" and bl = ref "" and prep = ref "" and cls = ref "" and emb = ref "" and var = ref "staticCode" and poolf = ref "" in
+  let tables = ref "" and cases = ref "" and fuel = ref 4000 and dec = ref "" and bl = ref "" and prep = ref "" and cls = ref "" and emb = ref "" and var = ref "staticCode" and poolf = ref "" and exitf = ref "" in
   Arg.parse [ ("-tables", Arg.Set_string tables, "unicode tables file");
               ("-cases", Arg.Set_string cases, "case file");
               ("-pq", Arg.String set_pq, "analysis quirks, 2 bits: nullable_inner pred_first (default 01 = current tree: nullable_inner repaired by fix 46465c9)");
               ("-prep", Arg.Set_string prep, "file of grammars: PrepareGrammar model over all iteration orders + LRSpec");
               ("-cls", Arg.Set_string cls, "file of hex class texts: the model of ast.CharClassMatcher.parse under both escape settings");
+              ("-exit", Arg.Set_string exitf, "file of stage outcomes: exit status per the model of main.go");
               ("-pool", Arg.Set_string poolf, "file of state-store steps: replay on the Pool model and print the views");
               ("-embed", Arg.Set_string emb, "source file: print the file static_code_generator writes for it (model)");
               ("-var", Arg.Set_string var, "variable name for -embed");
@@ -499,6 +517,7 @@ let () =
   if !cls <> "" then (cls_mode !cls; exit 0);
   if !emb <> "" then (embed_mode !emb !var; exit 0);
   if !poolf <> "" then (pool_mode !poolf; exit 0);
+  if !exitf <> "" then (exit_mode !exitf; exit 0);
   if !tables <> "" then load_tables !tables;
   if !bl <> "" then (bl_mode !bl; exit 0);
   if !prep <> "" then (Random.init 7; prep_mode !prep; exit 0);
